@@ -1809,6 +1809,20 @@ def run(chk):
                 if h is not None and h is not up:
                     helper_calls.append((n, h))
         helper_bms = [c for _n, h in helper_calls for c in walk_body(h) if isinstance(c, ast.Call) and last_attr(c.func) == "best_match"]
+
+        def listing_of(c):
+            """the git.branches(...) call whose result this matcher call searches directly (through a local that holds nothing else but an empty-list initialisation); None otherwise."""
+            a0 = source.arg_of(c, 0, params_of(bm)[0])
+            if isinstance(a0, ast.Name):
+                vals = [n.value for n in walk_body(up) if isinstance(n, ast.Assign) and any(isinstance(t, ast.Name) and t.id == a0.id for t in n.targets)]
+                calls = [v for v in vals if isinstance(v, ast.Call) and last_attr(v.func) == "branches"]
+                rest = [v for v in vals if v not in calls and not (isinstance(v, (ast.List, ast.Tuple)) and not v.elts)]
+                a0 = calls[0] if len(calls) == 1 and not rest else source.inline_node(a0, local_defs(up))
+            return a0 if isinstance(a0, ast.Call) and last_attr(a0.func) == "branches" else None
+
+        # (a matcher call on a COMBINATION of listings - the master decision against local + remote names - is no step of the fallback order: decided on values only)
+        combined_bms = [c for c in bms if listing_of(c) is None and len([n for n in ast.walk(source.arg_of(c, 0, params_of(bm)[0]) or c) if isinstance(n, ast.Name)]) >= 2]
+        bms = [c for c in bms if c not in combined_bms]
         if not bms or (len(bms) != 2 and helper_bms) or len(bms) > 2:
             # the searches are (partly) made in helper methods: the fallback order across methods is not decided here
             chk.unknown("O15.4", f"{len(bms)} matcher call(s) (best_match) located in RallyRepository.update itself, {len(helper_bms)} in helper methods it calls: the order remote < local "
@@ -1826,9 +1840,8 @@ def run(chk):
 
         def branch_source(c):
             """the remote flag of the git.branches(...) call whose result this matcher call searches (its default when omitted); None if the call searches something else."""
-            a0 = source.arg_of(c, 0, params_of(bm)[0])
-            a0 = source.inline_node(a0, local_defs(up)) if a0 is not None else None
-            if not (isinstance(a0, ast.Call) and last_attr(a0.func) == "branches"):
+            a0 = listing_of(c)
+            if a0 is None:
                 return None
             flag = source.arg_of(a0, 1, gb_params[1])
             return flag if flag is not None else flag_default
@@ -2020,7 +2033,9 @@ def run(chk):
                     and all(isinstance(x, ast.Call) or source.is_const(x, None) for x in d):
                 chk.unknown("O15.4", f"the ref handed to `{short(c, 60)}` is the result of `{short([x for x in d if isinstance(x, ast.Call)][0], 50)}`, which is not followed here", c)
             else:
-                ok = all(isinstance(x, ast.Call) and last_attr(x.func) in ("best_match", "_find_matching_tag") for x in d)
+                # (a `None` among the origins withdraws a selection - `branch = None` when master is no match after all -: it names no ref)
+                refs_ = [x for x in d if not source.is_const(x, None)]
+                ok = bool(refs_) and all(isinstance(x, ast.Call) and last_attr(x.func) in ("best_match", "_find_matching_tag") for x in refs_)
                 chk.ob("O15.4", "checked-out ref is the matcher's (or tag finder's) result", ok, c, short(c, 70) + ("" if via is None else f" in {fn_.name}(), called as `{short(via, 60)}`"))
             # errors propagate: from the checkout's exception edges the normal exit is unreachable
             swallowed = absorbed(g_, c) or (via is not None and absorbed(gu, via))
@@ -2120,8 +2135,27 @@ def run(chk):
         a_, b_, c_, s_ = int(m_.group(1)), int(m_.group(2)), int(m_.group(3)), m_.group(4)
         return ([f"{a_}.{b_}.{c_}-{s_}"] if s_ else []) + [f"{a_}.{b_}.{c_}", f"{a_}.{b_}", f"{a_}"]
 
-    def simulate(has_remote, remote_answer, local_answer, tags=(), current="master", fail=None, fetch=False, version=VERSION):
+    def ref_match(alts, version):
+        """the documented precedence on a concrete branch list (reference implementation: exact variant, nearest prior minor of the same major, master iff newer than every versioned branch)."""
+        alts = [a for a in alts if isinstance(a, str)]
+        if version is None:
+            return "master" if "master" in alts else None
+        vs = ref_variants(version)
+        major, minor = int(vs[-1]), int(vs[-2].split(".")[1])
+        for v_ in vs:
+            if v_ in alts:
+                return v_
+            if v_ == vs[-2]:
+                prior = [int(m_.group(2)) for m_ in (re.fullmatch(r"(\d+)\.(\d+)", a) for a in alts) if m_ and int(m_.group(1)) == major and int(m_.group(2)) <= minor]
+                if prior:
+                    return f"{major}.{max(prior)}"
+        majors = [int(m_.group(1)) for m_ in (re.fullmatch(r"(\d+)(?:\.\d+){0,2}(?:-.+)?", a) for a in alts) if m_]
+        return "master" if "master" in alts and major > max(majors, default=-1) else None
+
+    def simulate(has_remote, remote_answer=None, local_answer=None, tags=(), current="master", fail=None, fetch=False, version=VERSION, lists=None):
+        # (lists=(remote names, local names): the matcher stub answers by the documented precedence on whatever list it is handed - also a combination of the two listings)
         trace = []
+        remote_list, local_list = lists if lists is not None else (REMOTE_LIST, LOCAL_LIST)
         st = {"current": current, "movers": 0}
 
         def git_stub(name, impl):
@@ -2135,14 +2169,14 @@ def run(chk):
         def move(kind, ref_):
             trace.append((kind, ref_))
             st["movers"] += 1
-            if fail == kind or (kind in ("rebase", "pull") and not has_remote):
+            if fail == kind or (isinstance(fail, tuple) and kind in fail) or (kind in ("rebase", "pull") and not has_remote):
                 # (a repository without a remote has no origin/<branch> to rebase on: git fails)
                 raise _Raised(f"SupplyError: {kind} {ref_} failed", "SupplyError")
             st["current"] = ref_
 
         def listing(src_dir, remote):
             trace.append(("branches", bool(remote)))
-            return list(REMOTE_LIST if remote else LOCAL_LIST)
+            return list(remote_list if remote else local_list)
 
         def fetched(src_dir, remote):
             trace.append(("fetch", remote))
@@ -2155,6 +2189,12 @@ def run(chk):
             alts, version = in_order(iv, bm, list(a), k)
             if not isinstance(alts, (list, tuple, set, frozenset)) or not _plain(alts):
                 raise CannotEval("the matcher is handed something that is not a branch list")
+            if lists is not None:
+                if not all(isinstance(a, str) for a in alts) or not set(alts) <= set(remote_list) | set(local_list):
+                    raise CannotEval(f"the matcher is handed names that are neither remote nor local branches ({sorted(map(str, alts))})")
+                which = "remote" if sorted(alts) == sorted(remote_list) else ("local" if sorted(alts) == sorted(local_list) else "combined")
+                trace.append(("match", which, version))
+                return ref_match(list(alts), version)
             which = "remote" if sorted(alts) == sorted(REMOTE_LIST) else ("local" if sorted(alts) == sorted(LOCAL_LIST) else None)
             if which is None:
                 raise CannotEval(f"the matcher is handed neither the remote nor the local branch listing ({sorted(alts)})")
@@ -2187,7 +2227,7 @@ def run(chk):
         ir.budget = 60000
         kind, val = attempt(lambda: ir.call_function(up, [version], bound=me))
         revs = [v for v in me.fields.values() if isinstance(v, str) and v.startswith("head@")]
-        return {"kind": kind, "val": val, "trace": trace, "refs": [e[1] for e in trace if e[0] in ("checkout", "rebase", "pull")], "revs": revs, "final": f"head@{st['movers']}", "built": built,
+        return {"kind": kind, "val": val, "trace": trace, "refs": [e[1] for e in trace if e[0] in ("checkout", "rebase", "pull")], "revs": revs, "final": f"head@{st['movers']}", "built": built, "current": st["current"],
                 "matches": [e[1:] for e in trace if e[0] == "match"]}
 
     SCEN = {
@@ -2208,6 +2248,26 @@ def run(chk):
         "remote-nothing": ("remote repository; no branch and no tag matches", dict(has_remote=True, remote_answer=None, local_answer=None)),
         "remote-hit-fails": ("remote repository; 8.5 matches remotely, the checkout fails", dict(has_remote=True, remote_answer="8.5", local_answer=None, fail="checkout")),
         "local-hit-fails": ("repository without a remote; 8 matches locally, the checkout fails", dict(has_remote=False, remote_answer=None, local_answer="8", fail="checkout")),
+        # (the update from the remote is refused - uncommitted local changes: `git rebase` / `git pull` fail, which Rally only warns about - AFTER the remote match was checked out)
+        "rebase-refused": ("remote repository; 8.5 matches remotely and is checked out, the rebase on origin is refused (local changes); 8 would match locally",
+                           dict(has_remote=True, remote_answer="8.5", local_answer="8", fail=("rebase", "pull"))),
+        "rebase-refused-tag": ("remote repository; 8.5 matches remotely and is checked out, the rebase on origin is refused (local changes); no local branch matches, tag v8.5.1 exists",
+                               dict(has_remote=True, remote_answer="8.5", local_answer=None, tags=["v8.5.1"], fail=("rebase", "pull"))),
+        "rebase-refused-only": ("remote repository; 8.5 matches remotely and is checked out, the rebase on origin is refused (local changes); neither a local branch nor a tag matches",
+                                dict(has_remote=True, remote_answer="8.5", local_answer=None, fail=("rebase", "pull"))),
+        # (F59) the matcher answers by the documented precedence on the listing it is handed: the clone of a repository with the remote branches master, 7, 8 has only master locally
+        "old-version-tag": ("remote repository with the branches master, 7, 8 (local clone: master only), version 6.8.0, tags v6 and v7",
+                            dict(has_remote=True, lists=(["master", "7", "8"], ["master"]), version="6.8.0", tags=["v6", "v7"], current="7")),
+        "old-version-nothing": ("remote repository with the branches master, 7, 8 (local clone: master only), version 6.8.0, no matching tag",
+                                dict(has_remote=True, lists=(["master", "7", "8"], ["master"]), version="6.8.0", tags=["v7"], current="7")),
+        "newer-than-local": ("remote repository without a listed remote branch, local branches master, 7, version 8.0.0 (7 is checked out)",
+                             dict(has_remote=True, lists=([], ["master", "7"]), version="8.0.0", current="7")),
+        "newer-than-remote": ("remote repository with the branches master, 7 (local clone: master only), version 8.0.0 (7 is checked out)",
+                              dict(has_remote=True, lists=(["master", "7"], ["master"]), version="8.0.0", current="7")),
+        "newer-than-both": ("remote repository with the branch 7 only (no master remotely), local branches master, 7, version 8.0.0 (7 is checked out)",
+                            dict(has_remote=True, lists=(["7"], ["master", "7"]), version="8.0.0", current="7")),
+        "no-versioned-branch": ("repository without a remote, local branch master only, version 6.8.0 (tag v6 exists, `old` is checked out)",
+                                dict(has_remote=False, lists=([], ["master"]), version="6.8.0", tags=["v6"], current="old")),
         "tag-fails": ("repository without a remote; only the tag v8.5 matches, the checkout fails", dict(has_remote=False, remote_answer=None, local_answer=None, tags=["v8.5"], fail="checkout")),
     }
     runs = {k: simulate(**kw) for k, (_t, kw) in SCEN.items()}
@@ -2219,7 +2279,7 @@ def run(chk):
 
     def decided(name, scen, ok, extra=""):
         r = runs[scen]
-        chk.ob("O15.4", f"{name}: {SCEN[scen][0]}", ok, up, f"update({VERSION!r}): {show(r)}" + (f" — {extra}" if extra and not ok else ""), key=f"{_P}:RallyRepository.update:{name}:{scen}")
+        chk.ob("O15.4", f"{name}: {SCEN[scen][0]}", ok, up, f"update({SCEN[scen][1].get('version', VERSION)!r}): {show(r)}" + (f" — {extra}" if extra and not ok else ""), key=f"{_P}:RallyRepository.update:{name}:{scen}")
 
     def only(r, ref_):
         return r["kind"] == "value" and bool(r["refs"]) and set(r["refs"]) == {ref_}
@@ -2242,6 +2302,24 @@ def run(chk):
         for scen in ("remote-hit", "remote-miss", "local-only"):
             r = runs[scen]
             decided("matcher called with the distribution version", scen, bool(r["matches"]) and all(m_[1] == VERSION for m_ in r["matches"]), f"asked for {[m_[1] for m_ in r['matches']]}")
+        # the candidates of a remote repository are the REMOTE branches: once one of them matched (and was checked out), the local listing / the tags are no fallback any more,
+        # whatever happens to the subsequent update from origin (a refused rebase is warned about: the selected branch stays, with the user's local state)
+        N1b = "the remote match stays the selected branch when the rebase on origin is refused"
+        for scen in ("rebase-refused", "rebase-refused-tag", "rebase-refused-only"):
+            r = runs[scen]
+            decided(N1b, scen, only(r, "8.5") and r["current"] == "8.5",
+                    "a remote branch qualified and was checked out: neither the local branch listing nor the tags are candidates any more, and no error `nothing qualifies` may be reported"
+                    if r["kind"] != "unknown" else "")
+        # master is the match only when the version is newer than EVERY versioned branch of the repository: the local listing of a clone holds the default branch only, so the
+        # versioned branches known from the remote count, too (and where master is legitimately the answer - remotely or locally - it is still selected)
+        N1c = "master only when the version is newer than every versioned branch of the repository (remote and local names together)"
+        r = runs["old-version-tag"]
+        decided(N1c, "old-version-tag", only(r, "v6"), "7 and 8 are branches of the repository: 6.8.0 is not newer than every versioned branch, master is no match; the matching v-tag is the last resort")
+        r = runs["old-version-nothing"]
+        decided(N1c, "old-version-nothing", r["kind"] == "raise" and not r["refs"], "7 and 8 are branches of the repository: 6.8.0 is not newer than every versioned branch, master is no match; "
+                "an error must be reported and nothing checked out")
+        for scen in ("newer-than-local", "newer-than-remote", "newer-than-both", "no-versioned-branch"):
+            decided(N1c, scen, only(runs[scen], "master"), "the version is newer than every versioned branch (remote and local): master is the documented match")
         N4 = "tags only after no local branch matched"
         decided(N4, "local-and-tag", only(runs["local-and-tag"], "8"), "the local branch wins over a tag")
         decided(N4, "tag", only(runs["tag"], "v8.5"), "the most specific matching v-tag is checked out")
@@ -2634,16 +2712,21 @@ _UP_SPLIT = ('    def update(self, distribution_version):\n        try:\n       
              '    def _update_from_remote(self, distribution_version):\n        branch = versions.best_match(git.branches(self.repo_dir, remote=self.remote), distribution_version)\n'
              '        if not branch:\n            self.logger.warning("Could not find %s remotely for distribution version [%s].", self.resource_name, distribution_version)\n            return False\n'
              + _UP_REMOTE + '        return True\n\n'
-             '    def _update_from_local(self, distribution_version):\n        branch = versions.best_match(git.branches(self.repo_dir, remote=False), distribution_version)\n'
+             '    def _update_from_local(self, distribution_version):\n        local_branches = git.branches(self.repo_dir, remote=False)\n'
+             '        branch = versions.best_match(local_branches, distribution_version)\n        if branch == "master" and self.remote:\n'
+             '            known = local_branches + git.branches(self.repo_dir, remote=self.remote)\n            if versions.best_match(known, distribution_version) != "master":\n'
+             '                branch = None\n'
              '        if branch:\n            if git.current_branch(self.repo_dir) != branch:\n                git.checkout(self.repo_dir, branch=branch)\n'
              '                self.revision = git.head_revision(self.repo_dir)\n            return\n        tag = self._find_matching_tag(distribution_version)\n        if not tag:\n'
              '            raise exceptions.SystemSetupError("Cannot find %s for distribution version %s" % (self.resource_name, distribution_version))\n'
              '        git.checkout(self.repo_dir, branch=tag)\n        self.revision = git.head_revision(self.repo_dir)\n\n')
-_UP_GUARDS = ('    def update(self, distribution_version):\n        try:\n            if self.remote:\n'
-              '                branch = versions.best_match(git.branches(self.repo_dir, remote=self.remote), distribution_version)\n                if branch:\n'
+_UP_GUARDS = ('    def update(self, distribution_version):\n        try:\n            remote_branches = []\n            if self.remote:\n'
+              '                remote_branches = git.branches(self.repo_dir, remote=self.remote)\n'
+              '                branch = versions.best_match(remote_branches, distribution_version)\n                if branch:\n'
               + "".join("            " + l + "\n" for l in _UP_REMOTE.split("\n")[:-1]) + '                    return\n'
               '                self.logger.warning("Could not find %s remotely for distribution version [%s].", self.resource_name, distribution_version)\n'
               '            local_branches = git.branches(self.repo_dir, remote=False)\n            ref = versions.best_match(local_branches, distribution_version)\n'
+              '            if ref == "master" and versions.best_match(local_branches + remote_branches, distribution_version) != "master":\n                ref = None\n'
               '            if ref and git.current_branch(self.repo_dir) == ref:\n                return\n            if not ref:\n                ref = self._find_matching_tag(distribution_version)\n'
               '            if not ref:\n                raise exceptions.SystemSetupError("Cannot find %s for distribution version %s" % (self.resource_name, distribution_version))\n'
               '            self.logger.info("Checking out [%s] in [%s] for distribution version [%s].", ref, self.repo_dir, distribution_version)\n'
@@ -2663,6 +2746,10 @@ _COMP_OLD = ('        if matches.start(4) > 0:\n            return int(matches.g
              '        elif matches.start(1) > 0:\n            return int(matches.group(1)), None, None, None\n        else:\n            return int(version), None, None, None\n')
 _COMP_GROUPS = ('        major, minor, patch, suffix = matches.groups()\n'
                 '        return int(major), (int(minor) if minor is not None else None), (int(patch) if patch is not None else None), suffix\n')
+
+
+_F59_OLD = ('            if branch == "master" and versions.best_match(list(local_branches) + list(remote_branches), distribution_version) != "master":\n'
+            '                branch = None\n')
 
 
 def _whole_update(name, kind, rule, new):
@@ -2710,7 +2797,7 @@ VARIANTS = [
     V("seed m2: remote ref split on last slash", "break", _G, "            branches.append(ref[ref.index(\"/\") + 1 :].strip())", "            branches.append(ref.split(\"/\")[-1].strip())", "O15.4"),
     V("seed m3: checkout inside the rebase try", "break", _P, "                    git.checkout(self.repo_dir, branch=branch)\n                    self.logger.info(\"Rebasing on [%s] in [%s] for distribution version [%s].\", branch, self.repo_dir, distribution_version)\n                    try:\n",
       "                    self.logger.info(\"Rebasing on [%s] in [%s] for distribution version [%s].\", branch, self.repo_dir, distribution_version)\n                    try:\n                        git.checkout(self.repo_dir, branch=branch)\n", "O15.4"),
-    V("tags before local branches", "break", _P, "            branch = versions.best_match(git.branches(self.repo_dir, remote=False), distribution_version)\n            if branch:", "            branch = None\n            if branch:", "O15.4"),
+    V("tags before local branches", "break", _P, "            branch = versions.best_match(local_branches, distribution_version)\n", "            branch = None\n", "O15.4"),
     V("checks out the current branch name", "break", _P, "                    git.checkout(self.repo_dir, branch=tag)", "                    git.checkout(self.repo_dir, branch=distribution_version)", "O15.4"),
     # ---- refactored shapes (benign round): the value-decided obligations accept them, and still bite when the defect sits INSIDE the refactored shape
     V("b2 shape: _latest_major as generator + max(default=-1)", "keep", _V, _LM_OLD,
@@ -2809,11 +2896,11 @@ VARIANTS = [
      V("", "break", _P, _TAG_OLD, "                    self._switch_to(tag, distribution_version)\n"),
      V("", "break", _P, "    def _find_matching_tag(self, distribution_version):\n", _SWITCH)],
     V("tag checkout does not record the revision", "break", _P, _TAG_OLD, _TAG_OLD.replace("                    self.revision = git.head_revision(self.repo_dir)\n", ""), "O15.4"),
-    V("local match and tag bound in the tests (walrus)", "keep", _P,
-      "            branch = versions.best_match(git.branches(self.repo_dir, remote=False), distribution_version)\n            if branch:\n",
-      "            if branch := versions.best_match(git.branches(self.repo_dir, remote=False), distribution_version):\n"),
+    V("tag bound in its test (walrus)", "keep", _P,
+      "                tag = self._find_matching_tag(distribution_version)\n                if tag:\n",
+      "                if tag := self._find_matching_tag(distribution_version):\n"),
     V("remote flag attribute renamed consistently", "keep", _P, "self.remote", "self.has_remote", count=4),
-    V("remote search not guarded by the remote flag", "break", _P, "            if self.remote:\n                branch = versions.best_match(", "            if not self.offline:\n                branch = versions.best_match(", "O15.4"),
+    V("remote search not guarded by the remote flag", "break", _P, "            if self.remote:\n                remote_branches = git.branches(", "            if not self.offline:\n                remote_branches = git.branches(", "O15.4"),
     # ---- typed data model (benign round 2): the evaluator maps NamedTuple / namedtuple / Enum / dataclass declarations to the real types
     _typed("b8 shape: all_versions yields NamedTuple records, consumers read the fields by name", "keep", None, "from typing import NamedTuple\n", _NT_CLS,
            _av_new("VersionVariant"), _loop_new('variant.version_type == "with_minor"'), _VO_NT),
@@ -2839,13 +2926,13 @@ VARIANTS = [
     [V("itemgetter / partial search sorted ascending (farthest eligible minor)", "break", _V, _IMP_OLD, _IMP_OLD + "import operator\n", "O15.3"),
      V("", "break", _V, _LB_OLD, _FP_HELPER.replace("reverse=True", "reverse=False"))],
     # ---- update() / git.py in shapes the structural rules did not follow: decided on values
-    [V("both matcher calls behind one helper method (_best_branch(version, remote))", "keep", _P, "versions.best_match(git.branches(self.repo_dir, remote=self.remote), distribution_version)",
-       "self._best_branch(distribution_version, remote=self.remote)"),
-     V("", "keep", _P, "versions.best_match(git.branches(self.repo_dir, remote=False), distribution_version)", "self._best_branch(distribution_version, remote=False)"),
+    [V("both matcher calls behind one helper method (_best_branch(version, remote))", "keep", _P, "remote_branches = git.branches(self.repo_dir, remote=self.remote)\n                branch = versions.best_match(remote_branches, distribution_version)",
+       "remote_branches = git.branches(self.repo_dir, remote=self.remote)\n                branch = self._best_branch(distribution_version, remote=self.remote)"),
+     V("", "keep", _P, "            branch = versions.best_match(local_branches, distribution_version)\n", "            branch = self._best_branch(distribution_version, remote=False)\n"),
      V("", "keep", _P, "    def _find_matching_tag(self, distribution_version):\n", _BB_HELPER)],
-    [V("matcher helper ignores its remote parameter (always the remote listing)", "break", _P, "versions.best_match(git.branches(self.repo_dir, remote=self.remote), distribution_version)",
-       "self._best_branch(distribution_version, remote=self.remote)", "O15.4"),
-     V("", "break", _P, "versions.best_match(git.branches(self.repo_dir, remote=False), distribution_version)", "self._best_branch(distribution_version, remote=False)"),
+    [V("matcher helper ignores its remote parameter (always the remote listing)", "break", _P, "remote_branches = git.branches(self.repo_dir, remote=self.remote)\n                branch = versions.best_match(remote_branches, distribution_version)",
+       "remote_branches = git.branches(self.repo_dir, remote=self.remote)\n                branch = self._best_branch(distribution_version, remote=self.remote)", "O15.4"),
+     V("", "break", _P, "            branch = versions.best_match(local_branches, distribution_version)\n", "            branch = self._best_branch(distribution_version, remote=False)\n"),
      V("", "break", _P, "    def _find_matching_tag(self, distribution_version):\n", _BB_HELPER.replace("git.branches(self.repo_dir, remote=remote)", "git.branches(self.repo_dir)"))],
     _whole_update("update() split into _update_from_remote() -> bool and _update_from_local()", "keep", None, _UP_SPLIT),
     _whole_update("split update(): the remote step reports `not done` after a successful checkout (the local match is checked out on top)", "break", "O15.4",
@@ -2921,6 +3008,37 @@ VARIANTS = [
     [V("tag search result kept per repository OBJECT and version (instance attribute set in the tag search)", "keep", _P, _FT_OLD,
        '        tags = git.tags(self.repo_dir)\n        self.last_tag = next((f"v{v}" for v in versions.variants_of(distribution_version) if f"v{v}" in tags), None)\n'
        '        return self.last_tag\n')],
+    # ---- a remote branch matched and was checked out: a refused rebase on origin (local changes, only warned about) does not reopen the search among local branches / tags
+    V("seed m17: `return` moved into the rebase try (a refused rebase falls through to the LOCAL branch lookup)", "break", _P, _UP_OLD,
+      _UP_OLD.replace("                        self.revision = git.head_revision(self.repo_dir)\n", "                        self.revision = git.head_revision(self.repo_dir)\n                        return\n")
+      .replace("                        )\n                    return\n", "                        )\n"), "O15.4"),
+    V("remote step returns in the `else` of the rebase try only (same fall-through, other spelling)", "break", _P, "                        )\n                    return\n",
+      "                        )\n                    else:\n                        return\n", "O15.4"),
+    V("remote step returns only when a revision was recorded (none is after a refused rebase)", "break", _P, "                        )\n                    return\n",
+      "                        )\n                    if self.revision is not None:\n                        return\n", "O15.4"),
+    V("refused rebase handler resets the selection (`branch = None`) and the remote step returns only with a selection", "break", _P, "                        )\n                    return\n",
+      "                        )\n                        branch = None\n                    if branch:\n                        return\n", "O15.4"),
+    V("remote step returns at the end of the rebase try AND at the end of its handler", "keep", _P, _UP_OLD,
+      _UP_OLD.replace("                        self.revision = git.head_revision(self.repo_dir)\n", "                        self.revision = git.head_revision(self.repo_dir)\n                        return\n")
+      .replace("                        )\n                    return\n", "                        )\n                        return\n")),
+    V("refused rebase noted in a flag, the remote step returns unconditionally after the warning", "keep", _P, _UP_OLD,
+      _UP_OLD.replace("                    try:\n", "                    refused = False\n                    try:\n")
+      .replace("                    except exceptions.SupplyError:\n", "                    except exceptions.SupplyError:\n                        refused = True\n")
+      .replace("                        )\n                    return\n", "                        )\n                    if refused:\n                        self.logger.debug(\"Keeping [%s] without the update from origin.\", branch)\n                    return\n")),
+    # ---- F59 (fixed in f9619cc): master from the local listing only when the version is newer than every versioned branch of the repository, remote and local names together
+    V("F59 reverted: the local master match is not decided against the remote branch names (fresh clone: local listing = [master])", "break", _P, _F59_OLD, "", "O15.4"),
+    V("F59: the master decision of the local lookup looks at the local names only", "break", _P, "versions.best_match(list(local_branches) + list(remote_branches), distribution_version)",
+      "versions.best_match(list(local_branches), distribution_version)", "O15.4"),
+    V("F59: the remote listing is not kept for the master decision (remote_branches stays empty)", "break", _P,
+      "                remote_branches = git.branches(self.repo_dir, remote=self.remote)\n                branch = versions.best_match(remote_branches, distribution_version)\n",
+      "                branch = versions.best_match(git.branches(self.repo_dir, remote=self.remote), distribution_version)\n", "O15.4"),
+    V("F59: a local master match is withdrawn whenever the remote lists any branch (master is never selected locally for a remote repository)", "break", _P,
+      ' and versions.best_match(list(local_branches) + list(remote_branches), distribution_version) != "master":', " and remote_branches:", "O15.4"),
+    V("F59 fix with a set union instead of the list concatenation", "keep", _P, "versions.best_match(list(local_branches) + list(remote_branches), distribution_version)",
+      "versions.best_match(set(local_branches) | set(remote_branches), distribution_version)"),
+    V("F59 fix with the listings unpacked into one list and the decision bound to a local first", "keep", _P, _F59_OLD,
+      '            if branch == "master":\n                known = [*remote_branches, *local_branches]\n                if versions.best_match(known, distribution_version) != "master":\n'
+      '                    branch = None\n'),
     # preserving
     V("strictly smaller minors only", "keep", _V, "minor is not None and minor <= target_version.minor:", "minor is not None and minor < target_version.minor:"),
     V("nearest = max", "keep", _V, "    return min(eligible_minors, key=lambda x: abs(x - target_version.minor))", "    return max(eligible_minors)"),
